@@ -796,3 +796,99 @@ func init() {
 }
 
 var _ = strings.Contains
+
+// deepEqual: reflect.DeepEqual over engine values (DESIGN §2.5): structural
+// equality through pointers, slices and interfaces; the result is a term.
+func (w *Worker) deepEqual(st *State, a, b Value, depth int) *Term {
+	if depth > 20 {
+		unsupported("reflect.DeepEqual: nesting too deep")
+	}
+	switch x := a.(type) {
+	case *Term:
+		y, ok := b.(*Term)
+		if !ok {
+			return tFalse
+		}
+		return mkEq(x, y)
+	case StrV, float64, nil, OpaqueV:
+		return w.valuesEqual(st, a, b)
+	case *StructV:
+		y, ok := b.(*StructV)
+		if !ok || len(x.f) != len(y.f) {
+			return tFalse
+		}
+		cs := make([]*Term, len(x.f))
+		for i := range cs {
+			cs[i] = w.deepEqual(st, x.f[i], y.f[i], depth+1)
+		}
+		return mkAnd(cs...)
+	case *ArrV:
+		y, ok := b.(*ArrV)
+		if !ok || len(x.e) != len(y.e) {
+			return tFalse
+		}
+		cs := make([]*Term, len(x.e))
+		for i := range cs {
+			cs[i] = w.deepEqual(st, x.e[i], y.e[i], depth+1)
+		}
+		return mkAnd(cs...)
+	case SliceV:
+		y, ok := b.(SliceV)
+		if !ok {
+			return tFalse
+		}
+		if (x.obj == 0) != (y.obj == 0) || x.len != y.len {
+			return tFalse
+		}
+		ea, eb := w.sliceElems(st, x), w.sliceElems(st, y)
+		cs := make([]*Term, len(ea))
+		for i := range cs {
+			cs[i] = w.deepEqual(st, ea[i], eb[i], depth+1)
+		}
+		return mkAnd(cs...)
+	case IfaceV:
+		y, ok := b.(IfaceV)
+		if !ok {
+			return tFalse
+		}
+		if x.t == nil || y.t == nil {
+			return mkBool(x.t == nil && y.t == nil)
+		}
+		if !types.Identical(x.t, y.t) {
+			return tFalse
+		}
+		return w.deepEqual(st, x.v, y.v, depth+1)
+	case PtrV:
+		y, ok := b.(PtrV)
+		if !ok {
+			return tFalse
+		}
+		if x.isNil() || y.isNil() {
+			return mkBool(x.isNil() && y.isNil())
+		}
+		if samePtr(x, y) {
+			return tTrue
+		}
+		return w.deepEqual(st, st.load(x), st.load(y), depth+1)
+	case MapV:
+		y, ok := b.(MapV)
+		if !ok {
+			return tFalse
+		}
+		if x.obj == 0 || y.obj == 0 {
+			return mkBool(x.obj == y.obj)
+		}
+		unsupported("reflect.DeepEqual on maps")
+	case *FuncV:
+		y, _ := b.(*FuncV)
+		return mkBool(x == nil && y == nil)
+	}
+	unsupported("reflect.DeepEqual on %T", a)
+	return nil
+}
+
+func init() {
+	natives["reflect.DeepEqual"] = func(w *Worker, st *State, args []Value, fv *FuncV, depth int) []Outcome {
+		return ret1(st, w.deepEqual(st, args[0], args[1], 0))
+	}
+}
